@@ -41,7 +41,7 @@ CHECKS = {
  "C12": ("proptest + catch_unwind around every call: random/mutated decoder inputs, adversarial field values (invalid encodings, and valid values taken from other positions of the same run) that are then used, cross-session deliveries, per-step over-limit refusal grid, awkward KSF parameters; libFuzzer targets decoders and server_start (thorough) + corpus replay; the whole check runs a second time on a build with overflow checks and debug assertions",
          "No call may panic; in-range lengths complete, over-limit password/identity/context never complete a registration or login.",
          "Sampling; non-termination is reported as inconclusive by a watchdog.", "5 C12"),
- "C13": ("proptest differential: run with save/reload plans (native, bincode, JSON at 5 persistence points) vs uninterrupted run on equal tapes; libFuzzer targets decoders (accepted values survive every codec) and history (states pushed through a codec between the steps of adversarial histories) in the thorough tier + corpus replay",
+ "C13": ("proptest differential: run with save/reload plans (native, bincode, JSON at 5 persistence points) vs uninterrupted run on equal tapes; libFuzzer targets decoders (accepted values survive every codec) and history (states pushed through a codec between the steps of adversarial histories) in the thorough tier + corpus replay; generated adversarial histories run with and without reloads on equal tapes and compared outcome by outcome",
          "Reload plans (all 1024 in the thorough tier for one input per suite, plus sampled) must give byte-identical messages, states, keys and results.",
          "Plans exhaustive in thorough for one input per suite; inputs sampled.", "5 C13"),
  "C14": ("proptest metamorphic relations between runs + reference OPRF evaluation",
